@@ -157,6 +157,7 @@ package sql
 
 //@ func (*Traverser).TraverseSubjectSetRewrite
 //@   props C06 C13 C17
+//@   callsite (*Query).Where requires[C06] fragment-stays-inside-the-network-conjunct: !litcontains($arg1, " OR ") && !litcontains($arg1, " or ")
 //@   opt dead-ok return nil, errors.WithStack(err)
 //@   requires wft(t) && ctx != nil && start != nil && (start.Subject == nil || wfsubject(start.Subject))
 //@   modifies db
